@@ -6,6 +6,14 @@ ROOT = "/verif"
 
 # id -> dict(engine, category, text, note, technique, design_ref)
 CHECKS = {
+    "C17": dict(
+        engine="e2e",
+        category="exploration",
+        technique="property-based scenario testing on the real dquic client+server over simnet (virtual time): generated sets of pending operations x life-cycle phase x close trigger, with an injected-frame hook to provoke a protocol error",
+        text="Each case leaves a generated combination of operations pending on both endpoints (stream read, blocked write, flush, shutdown, open bidi/uni at the stream limit, accept bidi/uni, handshaked, terminated), reaches a generated phase (before the first flight, mid-handshake, some ms after the handshake) and fires a trigger: client close, server close, both closes racing within +-5 ms, an injected STREAM_STATE violation, a black hole, or plain idleness with generated idle timeouts on both sides. Oracle: both sides terminate within 1.5 s + 2 RTT virtual of a close/error, with the application's code (or the RFC 9000 10.2.3 APPLICATION_ERROR conversion at the peer) and the same error on every later query; every pending operation and every operation started afterwards fails within 1 s; none succeeds after termination; an idle connection ends no earlier than the negotiated timeout after the last datagram and no later than 2x that after going quiet, and never when both sides advertise none. 3 000 scenarios quick, 200 000 thorough.",
+        note="One current-thread runtime per case (FIFO wake order). Monotone state is observed through handshaked()/terminated() only (no qlog). 'No application data emitted after the transition' is covered at frame level by C01/C09 (nothing is loaded after on_conn_error), not on the wire here.",
+        design_ref="DESIGN.md §2.1, §3 C17",
+    ),
     "C04": dict(
         engine="comp",
         category="exploration",
